@@ -28,6 +28,19 @@ Emit(fails, nts) ==
 
 (* C11 asks for "exactly one error item", naming the type and the declared length when a value
    overruns; the error kind, and its payload when fewer than three bytes remain, are drift only *)
+(* after every operation the harness also asks the cursor, wherever it stands, for size_hint, len,
+   is_empty, as_bytes, Debug, a clone and equality with it: none of these may panic (C03); what
+   they say is compared as drift *)
+ProbeFails(where) ==
+    IF "probe" \notin DOMAIN Ev THEN {}
+    ELSE IF Ev.probe.k = "panic" THEN {<< "C03", "panic-in-an-accessor-of-a-moved-cursor", where >>}
+    ELSE {}
+
+ProbeDrift(rest) ==
+    IF "probe" \notin DOMAIN Ev \/ Ev.probe.k # "ok" THEN {}
+    ELSE IF Ev.probe.lo > rest \/ (Ev.probe.hi >= 0 /\ Ev.probe.hi < rest) \/ ~Ev.probe.clone_eq
+         THEN {<< "DRIFT", "size_hint-or-clone-of-a-moved-cursor", "probe" >>} ELSE {}
+
 SameItem(obs, exp) ==
     /\ obs.k = exp.k
     /\ (exp.k = "ok" => obs.t = exp.t /\ Flat(obs.v) = exp.v)
@@ -52,6 +65,7 @@ TraceTlvNext ==
        IN  Emit(Sel("C11", IF r.k = "panic" THEN {}
                            ELSE IF ~SameItem(r, exp) THEN {<< "C11", "item-differs-from-standard-walk", exp.k >>}
                            ELSE {})
+                \cup Sel("C03", ProbeFails("tlv-next"))
                 \cup Sel("C03", IF r.k = "panic" THEN {<< "C03", "panic", "tlv-next" >>}
                                 ELSE IF r.k \in {"ok", "err"} /\ realCalls + 1 > Len(section) \div 3 + 1
                                      THEN {<< "C03", "more-items-than-n/3+1", "tlv-next" >>}
@@ -119,7 +133,9 @@ TraceTlvNth ==
        IN  Emit(Sel("C11", IF r.k = "panic" THEN {}
                            ELSE IF ~SameItem(r, exp) THEN {<< "C11", "nth-on-a-moved-cursor-differs-from-standard-walk", exp.k >>}
                            ELSE {})
-                \cup Sel("C03", IF r.k = "panic" THEN {<< "C03", "panic", "tlv-nth" >>} ELSE {}),
+                \cup Sel("C03", IF r.k = "panic" THEN {<< "C03", "panic", "tlv-nth" >>} ELSE {})
+                \cup Sel("C03", ProbeFails("tlv-nth"))
+                \cup Sel("DRIFT", ProbeDrift(Len(RestFrom(NthFrom(offset, NthArg(Ev.n)).off)))),
                 Flag("C11", Len(section) > 0) \cup Flag("C03", TRUE))
     /\ Nth(Ev.n)
     /\ calls' = calls + 1
@@ -134,7 +150,8 @@ TraceTlvRest ==
                            [] Ev.how = "last" -> ~SameItem(r.item, IF rest = << >> THEN none ELSE rest[Len(rest)])
                            [] OTHER -> ~ItemsMatch(r.items, rest)
        IN  Emit(Sel("C11", IF wrong THEN {<< "C11", "rest-of-a-moved-cursor-differs-from-standard-walk", Ev.how >>} ELSE {})
-                \cup Sel("C03", IF r.k = "panic" THEN {<< "C03", "panic", "tlv-rest" >>} ELSE {}),
+                \cup Sel("C03", IF r.k = "panic" THEN {<< "C03", "panic", "tlv-rest" >>} ELSE {})
+                \cup Sel("C03", ProbeFails("tlv-rest")),
                 Flag("C11", Len(section) > 0) \cup Flag("C03", TRUE))
     /\ Drain
     /\ calls' = calls + 1
